@@ -1112,7 +1112,12 @@ fn main() {
                                 };
                                 let line = stderr
                                     .lines()
-                                    .find(|l| l.contains("ALLOC-GUARD") || l.contains("panicked") || l.contains("memory allocation"))
+                                    .find(|l| {
+                                        l.contains("ALLOC-GUARD")
+                                            || l.contains("panicked")
+                                            || l.contains("memory allocation")
+                                            || l.contains("AddressSanitizer")
+                                    })
                                     .unwrap_or("")
                                     .to_string();
                                 rep.evaluations += 1;
